@@ -91,6 +91,11 @@ def gen_cases(rng, tier):
         cases.append({"k": "infer", "s": s})
     for i, s in enumerate(rng.sample(strings, 3000 if tier == "quick" else 30000)):
         cases.append({"k": "with", "D": DIALECTS[(i * 7) % len(DIALECTS)], "s": s})
+    for s0 in ['0', '123', '1e5', 'null', 'true', '"abc"', '[1, 2]', '{"ID": "gene1"}', '{"ID":["g"]}', 'ID="g1";Alias="a,b,c"', 'ID="g1"',
+               'a="2";A="2,2"', 'note "alpha;beta"; gene_id "g1"; transcript_id "t1";', 'Note=binds DNA, RNA;ID=x', 'ID=x;Note=a, b', '.', '""', '[]', '{}']:
+        cases.append({"k": "infer", "s": s0})
+        for i in (0, 5, 19, 24, 33):
+            cases.append({"k": "with", "D": DIALECTS[i], "s": s0})
     nrand = 1500 if tier == "quick" else 30000
     pool = ALPHA * 3 + ["\t", "é", " ", " ", "b", "=", ";", "%", "C", "3", "9", "E"]
     for i in range(nrand):
@@ -185,10 +190,22 @@ def run_impl(c):
             d = dict(d, order=list(d["order"]))
             if not lists_of_str(q) or not G.dialect_ok(d):
                 return {"res": ["err", "Other"]}
+            # the same text as the ninth column of a line must parse to the same mapping and dialect (whatever it looks
+            # like - a number, a JSON literal ...): feature_from_line is the way attribute text normally arrives
+            if "\t" not in c["s"] and "\n" not in c["s"] and "\r" not in c["s"]:
+                f = feature_from_line("chr1\tsrc\tgene\t1\t9\t.\t+\t.\t" + c["s"])
+                fd = dict(f.dialect, order=list(f.dialect["order"]))
+                if not lists_of_str(f.attributes) or [[k, list(v)] for k, v in f.attributes._d.items()] != [[k, list(v)] for k, v in q._d.items()] \
+                        or fd != d:
+                    return {"res": ["err", "Other"]}
             return {"res": ["ok", [[[k, list(v)] for k, v in q._d.items()], d]]}
         q, d = parser._split_keyvals(c["s"], dialect=c["D"])
         if not lists_of_str(q):
             return {"res": ["err", "Other"]}
+        if "\t" not in c["s"] and "\n" not in c["s"] and "\r" not in c["s"]:
+            f = feature_from_line("chr1\tsrc\tgene\t1\t9\t.\t+\t.\t" + c["s"], dialect=c["D"])
+            if not lists_of_str(f.attributes) or [[k, list(v)] for k, v in f.attributes._d.items()] != [[k, list(v)] for k, v in q._d.items()]:
+                return {"res": ["err", "Other"]}
         return {"res": ["ok", [[k, list(v)] for k, v in q._d.items()]]}
     except Exception as ex:
         return {"res": ["err", L.err_class(ex)]}
